@@ -222,6 +222,65 @@ func genC14(seed uint64, tier string, outdir string) *Report {
 		st.finish(r, true, kind)
 	}
 
+	// (b5) the fields registration does not constrain: whatever RegisterExecutorChangePlan ACCEPTS
+	// must execute at its height without an end-blocker error.  Monikers of length 0, 1, 69, 70,
+	// 71, 84, 255, 1000 bytes in ASCII and in multi-byte characters; executor lists with
+	// duplicates, upper-case spellings, many entries, the empty list.
+	{
+		e := ve.E
+		type variant struct {
+			moniker string
+			execs   []string
+		}
+		var vs []variant
+		for _, n := range []int{0, 1, 69, 70, 71, 84, 255, 1000} {
+			m := strings.Repeat("a", n)
+			if n == 0 {
+				m = "<empty>"
+			}
+			vs = append(vs, variant{m, ve.userStrs(4)})
+			if n >= 2 {
+				mb := strings.Repeat("\u00e9", n/2) // 2 bytes each
+				if n%2 == 1 {
+					mb += "x"
+				}
+				vs = append(vs, variant{mb, ve.userStrs(4)})
+			}
+		}
+		u := func(i uint64) string { return e.User(i).Str }
+		vs = append(vs,
+			variant{"", []string{u(2), u(2)}},
+			variant{"", []string{u(2), upperBech32(u(2)), u(2)}},
+			variant{"", []string{upperBech32(u(1)), upperBech32(u(3))}},
+			variant{"", []string{u(1), u(2), u(3), u(4), u(5), u(6), upperBech32(u(1)), upperBech32(u(6))}},
+			variant{"", []string{}},
+			variant{strings.Repeat("\u4e16", 24), []string{u(5), upperBech32(u(5))}}, // 72 bytes, 24 characters
+		)
+		for i, v := range vs {
+			st.caseID++
+			r := ve.Start(st.caseID, genesisOf(3, 2, VRec{1, 1, 1}), 3, 3)
+			r.Do(TVOp{Kind: "begin", H: 1})
+			op := TVOp{Kind: "register", Pid: 1, PH: 2, Op: 2, Key: 2, Execs: v.execs, Moniker: v.moniker}
+			if i%3 == 2 { // sometimes the upper-case operator spelling
+				op.OpStr = strings.ToUpper(e.ValOps[1].String())
+			}
+			r.Do(op)
+			r.Do(TVOp{Kind: "end", H: 1})
+			r.Do(TVOp{Kind: "begin", H: 2})
+			r.Do(TVOp{Kind: "end", H: 2})
+			if i >= len(vs)-6 {
+				probeExecutors(r)
+			}
+			r.Do(TVOp{Kind: "begin", H: 3})
+			r.Do(TVOp{Kind: "end", H: 3})
+			kind := ""
+			if i == 8 {
+				kind = "plan with a long moniker"
+			}
+			st.finish(r, true, kind)
+		}
+	}
+
 	// (b2) block h executed twice by one process: first on a DISCARDED cache branch, then for
 	// real.  The plan registry is node memory, not store state; the real run must still apply
 	// the plan (fresh operator, fresh key, room below the cap: the good situation).
@@ -320,7 +379,11 @@ func genC14(seed uint64, tier string, outdir string) *Report {
 					bad[rg.Intn(len(bad))] = []string{"", "notanaddress", ve.E.User(1).Str + "x", ve.E.ValOps[0].String()}[rg.Intn(4)]
 					r.Do(TVOp{Kind: "register", Pid: 2, PH: uint64(planH), Op: op, Key: key, Execs: bad})
 				}
-				s := r.Do(TVOp{Kind: "register", Pid: uint64(1 + rg.Intn(9)), PH: uint64(planH), Op: op, Key: key, Execs: execs})
+				moniker := ""
+				if rg.Chance(30) {
+					moniker = strings.Repeat([]string{"m", "\u00fc", "\u4e16"}[rg.Intn(3)], []int{1, 23, 35, 70, 71, 100, 400}[rg.Intn(7)])
+				}
+				s := r.Do(TVOp{Kind: "register", Pid: uint64(1 + rg.Intn(9)), PH: uint64(planH), Op: op, Key: key, Execs: execs, Moniker: moniker})
 				registered = s.Verdict == "OK"
 				if rg.Chance(15) { // the same height again: must be refused
 					r.Do(TVOp{Kind: "register", Pid: 3, PH: uint64(planH), Op: uint64(1 + rg.Intn(5)), Key: uint64(1 + rg.Intn(5)), Execs: execs})
